@@ -62,6 +62,10 @@ type Sim struct {
 	// boundary or step it (wall-clock jump fault) without simulating the idle
 	// time. Zero = SQLite's clock equals the bubble clock.
 	ClockOffset time.Duration
+	// Hold, if set, is asked about every deliverable head segment; segments for
+	// which it returns true stay queued in order (a slow path on selected
+	// connections, e.g. one node's responses). Time keeps advancing.
+	Hold func(p simnet.Pending) bool
 }
 
 func New(c *core.Ctx) *Sim {
@@ -145,6 +149,15 @@ func (s *Sim) Step() {
 		}
 	}
 	heads := s.Net.PendingHeads()
+	if s.Hold != nil {
+		kept := heads[:0]
+		for _, h := range heads {
+			if !s.Hold(h) {
+				kept = append(kept, h)
+			}
+		}
+		heads = kept
+	}
 	r := s.C.Rng
 	if len(heads) > 0 && !r.Bool(s.TickProb) {
 		h := heads[r.Intn(len(heads))]
